@@ -56,6 +56,27 @@ impl SlotKind {
     }
 }
 
+thread_local! {
+    /// the slot the calling thread's span function runs against, and what its `setup:` does
+    static TL_SLOT: std::cell::Cell<Option<SlotKind>> = const { std::cell::Cell::new(None) };
+    static TL_SETUP: std::cell::RefCell<Option<Box<dyn FnOnce()>>> = const { std::cell::RefCell::new(None) };
+}
+
+fn tl_rt() -> &'static AmbientRuntime<'static> {
+    TL_SLOT.with(|s| s.get()).expect("slot set").get()
+}
+
+fn tl_setup() {
+    if let Some(f) = TL_SETUP.with(|f| f.borrow_mut().take()) {
+        f()
+    }
+}
+
+/// "Invoke the expression before creating the span": an application (or a test) that initialises the runtime in the
+/// `setup:` of its outermost span expects that span to go through the runtime it has just initialised.
+#[emit::span(rt: tl_rt(), setup: tl_setup, "span whose setup initialises the slot", eid)]
+fn span_with_setup(eid: u32) {}
+
 impl emit::runtime::InternalEmitter for TagEmitter {}
 impl emit::runtime::InternalFilter for TagFilter {}
 impl emit::runtime::InternalCtxt for TagCtxt {}
@@ -107,6 +128,8 @@ struct Got {
     ctxt: Option<u32>,
     eid: Option<u32>,
     thread: thread::ThreadId,
+    /// the completion of `span_with_setup` (the test context keeps no pushed properties, so it is known by its name)
+    setup_span: bool,
 }
 
 struct Shared {
@@ -125,6 +148,7 @@ impl Emitter for TagEmitter {
             ctxt: evt.props().pull::<u32, _>("ctxt_tag"),
             eid: evt.props().pull::<u32, _>("eid"),
             thread: thread::current().id(),
+            setup_span: evt.msg().to_string().starts_with("span whose setup"),
         };
         self.1.received.lock().unwrap().push(got);
     }
@@ -219,12 +243,53 @@ fn main() {
         let outcomes = outcomes.clone();
         let yields = splitmix(&mut st) % 6;
         let use_panicking = i - 1 == panicking_init;
+        // one initialiser in three (never the panicking one) initialises from inside the `setup:` of a span function
+        let via_span_setup = !use_panicking && (seed / 6 + i as u64) % 3 == 0;
         handles.push(thread::spawn(move || {
             while !gate.load(Ordering::Acquire) {
                 thread::yield_now();
             }
             for _ in 0..yields {
                 thread::yield_now();
+            }
+            if via_span_setup {
+                let span_eid = 2_000_000 + i;
+                let (shared2, outcomes2) = (shared.clone(), outcomes.clone());
+                TL_SLOT.with(|s| s.set(Some(slot)));
+                TL_SETUP.with(|f| {
+                    *f.borrow_mut() = Some(Box::new(move || {
+                        let setup = emit::setup()
+                            .emit_to(TagEmitter(i, shared2.clone()))
+                            .emit_when(TagFilter(i, shared2.clone()))
+                            .with_ctxt(TagCtxt(i))
+                            .with_clock(TagClock(i))
+                            .with_rng(TagRng(i));
+                        let r = match slot {
+                            SlotKind::Fresh(s) => setup.try_init_slot(s),
+                            SlotKind::Shared => setup.try_init(),
+                            SlotKind::Internal => setup.try_init_internal(),
+                        };
+                        let won = match r {
+                            Some(init) => {
+                                check_handle(init, i, slot, &shared2, 1_000_000 + i);
+                                "won"
+                            }
+                            None => "lost",
+                        };
+                        outcomes2.lock().unwrap().push((i, won));
+                    }));
+                });
+                span_with_setup(span_eid);
+                // whoever won, the slot was initialised when `setup` returned: the span opened after it went through
+                // the winning runtime
+                let me = thread::current().id();
+                let n = shared.received.lock().unwrap().iter().filter(|g| g.setup_span && g.thread == me).count();
+                if n != 1 {
+                    shared.violations.lock().unwrap().push(format!(
+                        "span_after_setup_not_emitted initialiser {i}: the span whose setup initialised the slot was recorded {n} times"
+                    ));
+                }
+                return;
             }
             let setup = emit::setup()
                 .emit_to(TagEmitter(i, shared.clone()))
